@@ -13,6 +13,7 @@ import (
 	lptypes "github.com/elys-network/elys/x/leveragelp/types"
 	mctypes "github.com/elys-network/elys/x/masterchef/types"
 	sstypes "github.com/elys-network/elys/x/stablestake/types"
+	tiertypes "github.com/elys-network/elys/x/tier/types"
 )
 
 // Chain-level part of C05: "the per-share value of the liquidity left behind never decreases" when
@@ -117,7 +118,7 @@ func CheckC05Chain(h *History, blk *BlockRecord) []Violation {
 // per-block snapshot) each one was priced from.
 func c03SwapTx(tx TxRecord) bool {
 	switch tx.Msg.(type) {
-	case *ammtypes.MsgSwapExactAmountIn, *ammtypes.MsgSwapExactAmountOut, *ammtypes.MsgSwapByDenom:
+	case *ammtypes.MsgSwapExactAmountIn, *ammtypes.MsgSwapExactAmountOut, *ammtypes.MsgSwapByDenom, *ammtypes.MsgFeedMultipleExternalLiquidity, *tiertypes.MsgSetPortfolio:
 		return true
 	}
 	return c05QuietTx(tx)
